@@ -34,6 +34,7 @@ import (
 	"reflect"
 	"strconv"
 	"strings"
+	"time"
 
 	"github.com/semihalev/twig"
 )
@@ -504,6 +505,19 @@ func newEvalEngine(c Case) *evalEngine {
 	return ee
 }
 
+// evalAbort is set when a render did not come back within the watchdog: a goroutine is then still running inside the
+// engine (and may end the process when its stack gives out), so the runners stop reading cases and write what they have.
+var evalAbort bool
+
+// renderGuarded is render under a watchdog of 30 s; class "hang" when it did not come back.
+func (ee *evalEngine) renderGuarded(name string, ctx map[string]interface{}) (out string, class string, detail string) {
+	if !c08WithTimeout(30*time.Second, func() { out, class, detail = ee.render(name, ctx) }) {
+		evalAbort = true
+		return "", "hang", "no answer within 30 s"
+	}
+	return
+}
+
 // evalRegisterRoute, when set, is the way newEvalEngine hands the case's templates to the engine: "parsed" is
 // ParseTemplate followed by RegisterTemplate, "compiled-shared" compiles each template once on another engine and
 // registers that one compiled object first with a third engine (which then gets other templates under the same
@@ -524,7 +538,7 @@ func evalByOtherRoutes(c Case, ctx map[string]interface{}, prepare func(*evalEng
 			if prepare != nil {
 				prepare(ee)
 			}
-			out2, class2, _ = ee.render(c.str("main"), ctx)
+			out2, class2, _ = ee.renderGuarded(c.str("main"), ctx)
 		}
 		if out2 != out || class2 != class {
 			return "with the templates handed over by route " + route + ": " + evalObserved(out2, class2) + " instead of " + evalObserved(out, class)
@@ -580,7 +594,7 @@ func evalUnderSettings(c Case, ctx map[string]interface{}, prepare func(*evalEng
 			if prepare != nil {
 				prepare(ee)
 			}
-			out2, class2, _ = ee.render(c.str("main"), ctx)
+			out2, class2, _ = ee.renderGuarded(c.str("main"), ctx)
 		}
 		twig.SetDebugLevel(twig.DebugOff)
 		if out2 != out || class2 != class {
